@@ -2,7 +2,7 @@
    = false: handlers have no scripted API calls (what a handler legitimately invoked for the
    client does through the API is outside the claim); benign_event_name: the frame does not carry
    an event literally named "disconnect" (C12_reserved_event_refuted shows why). *)
-From VT Require Import Server.Isolation.
+From VT Require Import Server.Isolation Server.Sessions.
 
 Theorem C12_frame_local : forall c s e payload tbl,
   has_actions c = false -> Inv s -> benign_event_name c s e payload (table_loads tbl) ->
@@ -16,6 +16,24 @@ Theorem C12_frame_local_view : forall c s e payload tbl,
   Forall (Eok s e) (snd (step c s (EioMessage e payload tbl))).
 Proof. exact step_message_local. Qed.
 Print Assumptions C12_frame_local_view.
+
+(* configurations WITH scripted actions (cfg_ok: no misuse of the room None): the other
+   transports' part of the state is untouched all the same - rooms included, a handler's
+   enter_room / leave_room act on its own sid -, handlers and callbacks are invoked for this
+   transport's sids only; scripted emits (Out) may address anybody (Eok' leaves Out free) *)
+Theorem C12_frame_local_actions : forall c s e payload tbl,
+  cfg_ok c -> Inv s -> benign_event_name c s e payload (table_loads tbl) ->
+  c12_step c s (EioMessage e payload tbl) (snd (step c s (EioMessage e payload tbl))) = true /\
+  others_unchanged e s (fst (step c s (EioMessage e payload tbl))) = true.
+Proof. exact C12_frame_local_actions_lemma. Qed.
+Print Assumptions C12_frame_local_actions.
+
+Theorem C12_frame_local_actions_view : forall c s e payload tbl,
+  cfg_ok c -> Inv s -> benign_event_name c s e payload (table_loads tbl) ->
+  osame e s (fst (step c s (EioMessage e payload tbl))) /\
+  Forall (Eok' s e) (snd (step c s (EioMessage e payload tbl))).
+Proof. exact Sessions.C12_frame_local_actions_view. Qed.
+Print Assumptions C12_frame_local_actions_view.
 
 Theorem C12_others_unchanged : forall e s s', osame e s s' -> others_unchanged e s s' = true.
 Proof. exact osame_others_unchanged. Qed.
